@@ -50,21 +50,11 @@ class _Server:
 
 
 class _OneShotSocket:
-    """a socket whose recv returns the pending chunk once; the next recv ends the handler's loop (for now)"""
+    """the datagram handlers get (data, socket) once: this is the socket they send through"""
 
     def __init__(self):
         self.h = None
-        self.chunk = None
         self.out = []
-        self.reads = 0
-
-    def recv(self, n):
-        self.reads += 1
-        if self.chunk is None:
-            self.h.running = False
-            return b''
-        c, self.chunk = self.chunk, None
-        return c
 
     def send(self, data):
         self.out.append(list(data))
@@ -75,40 +65,86 @@ class _OneShotSocket:
         return len(data)
 
 
+class _BlockingSocket:
+    """the socket of a stream handler whose handle() runs ONCE, in its own thread, for the life of the connection (as
+    under socketserver): recv blocks until the harness feeds a chunk, an idle timeout, or the end of the connection"""
+
+    def __init__(self):
+        import queue
+        import threading
+        self.q = queue.Queue()
+        self.idle = threading.Event()     # set while the handler waits in recv (everything fed so far is processed)
+        self.out = []
+        self.h = None
+
+    def recv(self, n):
+        self.idle.set()
+        item = self.q.get()
+        self.idle.clear()
+        if item == 'TIMEOUT':
+            import socket
+            raise socket.timeout('timed out')
+        if item == 'STOP':
+            self.h.running = False
+            return b''
+        return item
+
+    def send(self, data):
+        self.out.append(list(data))
+        return len(data)
+
+
 class _SyncStreamConn:
-    """ModbusConnectedRequestHandler (TCP) / ModbusSingleRequestHandler (serial): `handle()` is re-entered for each
-    chunk with the same handler object (same framer state); the fake socket ends the loop after the chunk."""
+    """ModbusConnectedRequestHandler (TCP) / ModbusSingleRequestHandler (serial): handle() runs in a thread of its own
+    from the first chunk to the end of the connection, exactly one call, so that state the loop keeps in local
+    variables lives as long as it does in a real server."""
 
     def __init__(self, kind, srv):
+        import threading
         cls = ssync.ModbusConnectedRequestHandler if kind == 'syncTcp' else ssync.ModbusSingleRequestHandler
         self.h = cls.__new__(cls)
-        self.sock = _OneShotSocket()
+        self.sock = _BlockingSocket()
         self.sock.h = self.h
         self.h.request, self.h.client_address, self.h.server = self.sock, ADDR, srv
         self.h.setup()
-        self.closed = False
+        self.esc = None
+        self.done = threading.Event()
+
+        def run():
+            try:
+                self.h.handle()
+            except Exception as e:  # noqa
+                self.esc = errkind(e)
+            finally:
+                self.done.set()
+                self.sock.idle.set()
+        self.thread = threading.Thread(target=run, daemon=True)
+        self.thread.start()
+        self._wait()
+
+    def _wait(self):
+        if not self.sock.idle.wait(10):
+            raise RuntimeError('handler thread did not come back to recv within 10 s')
 
     def feed(self, chunk):
-        if self.closed or not chunk:       # an empty read is "peer closed" for a socket, not a chunk
+        if self.done.is_set():
             return [], None
-        self.sock.chunk = bytes(chunk)
+        if chunk is not None and not chunk:        # an empty read is "peer closed" for a socket, not a chunk
+            return [], None
         self.sock.out = []
-        self.sock.reads = 0
-        self.h.running = True
-        esc = None
-        try:
-            self.h.handle()
-        except Exception as e:  # noqa
-            esc = errkind(e)
-        if self.sock.reads < 2:
-            # the loop ended by itself (the handler gave the connection up), not by our end-of-script read
-            self.closed = True
+        self.sock.idle.clear()
+        self.sock.q.put('TIMEOUT' if chunk is None else bytes(chunk))
+        self._wait()
+        esc, self.esc = self.esc, None
         return self.sock.out, esc
 
     def alive(self):
-        return not self.closed
+        return not self.done.is_set()
 
     def close(self):
+        if not self.done.is_set():
+            self.sock.q.put('STOP')
+            self.done.wait(5)
         try:
             self.h.finish()
         except Exception:  # noqa
@@ -348,6 +384,14 @@ class Session:
         return len(self.conns) - 1
 
     def feed(self, conn, chunk):
+        if isinstance(chunk, dict):
+            # the application removes a unit from the server context at run time: `del context[u]`
+            try:
+                del self.store[chunk['del']]
+                self.units = [x for x in self.units if x[0] != chunk['del']]
+                return [], None
+            except Exception as e:  # noqa
+                return [], errkind(e)
         return self.conns[conn].feed(chunk)
 
     def dumps(self):
